@@ -52,6 +52,7 @@ type world struct {
 	dead   map[int]bool  // tensors handed back with ReturnTensor: never touched or observed again
 	eng    tensor.Engine // proge: engine given to every tensor created by new (nil = default)
 	keep   bool    // progk: retain the axes slices passed to T and report them after every step
+	alt    bool    // dtype suffix @alt: every operation that has a second API spelling uses it (SliceInto, tensor.Narrow, tensor.Materialize, package-level products, method forms of elementwise operations, ...)
 	kept   [][]int
 }
 
@@ -202,7 +203,13 @@ func (w *world) step(op string) (status string) {
 		w.ts = append(w.ts, t)
 		return fmt.Sprintf("new:%d", len(w.ts)-1)
 	case "slice":
-		v, err := T(1).Slice(parseSlices(f[2])...)
+		var v tensor.View
+		var err error
+		if w.alt {
+			v, err = T(1).SliceInto(new(tensor.Dense), parseSlices(f[2])...)
+		} else {
+			v, err = T(1).Slice(parseSlices(f[2])...)
+		}
 		if err != nil {
 			return "err"
 		}
@@ -220,7 +227,7 @@ func (w *world) step(op string) (status string) {
 		// narrow:<t>:<dim>:<start>:<len>:<api|method> — tensor.Narrow / Dense.Narrow
 		var v tensor.View
 		var err error
-		if f[5] == "api" {
+		if (f[5] == "api") != w.alt {
 			v, err = tensor.Narrow(T(1), atoi(f[2]), atoi(f[3]), atoi(f[4]))
 		} else {
 			v, err = T(1).Narrow(atoi(f[2]), atoi(f[3]), atoi(f[4]))
@@ -272,7 +279,12 @@ func (w *world) step(op string) (status string) {
 		return fmt.Sprintf("new:%d", len(w.ts)-1)
 	case "mat":
 		src := T(1)
-		m := src.Materialize().(*tensor.Dense)
+		var m *tensor.Dense
+		if w.alt {
+			m = tensor.Materialize(src).(*tensor.Dense)
+		} else {
+			m = src.Materialize().(*tensor.Dense)
+		}
 		for i, t := range w.ts {
 			if t == m && !w.dead[i] {
 				return fmt.Sprintf("new:%d", i)
@@ -289,7 +301,7 @@ func (w *world) step(op string) (status string) {
 		// the package-level tensor.T is SafeT
 		var r *tensor.Dense
 		var err error
-		if len(f) > 3 && f[3] == "api" {
+		if (len(f) > 3 && f[3] == "api") != w.alt {
 			var rt tensor.Tensor
 			rt, err = tensor.T(T(1), ints(f[2])...)
 			if err == nil {
@@ -347,6 +359,9 @@ func runProg(dt string, prog string) string { return runProgK(dt, prog, false) }
 
 func runProgK(dt string, prog string, keep bool) string {
 	w := &world{dt: dt, keep: keep}
+	if strings.HasSuffix(dt, "@alt") {
+		w.dt, w.alt = strings.TrimSuffix(dt, "@alt"), true
+	}
 	var out []string
 	for _, op := range strings.Split(prog, ";") {
 		st := w.step(op)
